@@ -118,6 +118,10 @@ def gen_knobs(rng, tier):
     }
 
 
+SIMULATED_TIME = ("lian has no timers and, on the pinned tree, reads no clock; the clock is nevertheless a seam: in the `clock` dimension the "
+                  "analysing interpreter's time module answers from a simulated clock (frozen, 0.5 s, 10 min or 1 h per look); "
+                  "extra.clock_reads_under_simulated_clock / extra.simulated_clock_seconds say how often it was read and how much simulated "
+                  "time passed in those runs")
 STRATIFY = True
 WS_KINDS = ["sibling", "otherfs", "relative", "symlink", "symlink_inner", "named_externs", "named_src", "named_default", "named_glob", "symlink_sub"]
 HIST_CYCLE = [{"proj": "B"}, {"proj": "A"}, {"proj": "B"}, {"proj": "B", "crash_at": 15}, {"proj": "B", "settings": "alt"}]
@@ -294,6 +298,7 @@ def execute(trace):
         proj_digest = h64(canon_json([[f["path"], f["content"]] for f in files]))
         base_rec, base_v = None, None
         n_child = 0
+        clock_reads = [0, 0.0]        # clock reads and simulated seconds of the children that ran under the simulated clock
         for step, v in variants:
             # ---- workspace location of this variant
             wsk = v.get("ws", "same")
@@ -388,6 +393,9 @@ def execute(trace):
                 hit({"A": "history_same_project", "B": "history_crashed_run" if h.get("crash_at") else "history_other_project"}[h["proj"]])
             n_child += 1
             rec = _run_child(B, n_child, spec_for(projA), v.get("hashseed", 0), v.get("pyopt", 0))
+            if rec.get("clock"):
+                clock_reads[0] += rec["clock"]["reads"]
+                clock_reads[1] += rec["clock"]["simulated_seconds"]
             if base_rec is None:
                 base_rec, base_v = rec, v
                 tables = [f for f, d in rec["files"].items() if d[3] > 0 and f.split(os.sep)[0] not in ("src", "externs")]
@@ -457,7 +465,8 @@ def execute(trace):
             shutil.rmtree(d, ignore_errors=True)
     return {"violation": violation, "probes": probes, "states": states, "trans": trans, "steps": len(log),
             "log": digest_hex([log, None if violation is None else [violation["cls"], violation["detail"]["differing_files"]]]),
-            "extra": {"lian_processes": sum(1 for _ in log) + sum(len(v.get("history", [])) for _, v in variants)}}
+            "extra": {"lian_processes": sum(1 for _ in log) + sum(len(v.get("history", [])) for _, v in variants),
+                      "clock_reads_under_simulated_clock": clock_reads[0], "simulated_clock_seconds": int(clock_reads[1])}}
 
 
 # ----------------------------------------------------------------------------- signature / simplification
